@@ -1,14 +1,14 @@
 SPECIFICATION Spec
 CONSTANTS
-  N = 3
+  N = 2
   NT = 2
   Prios = {1, 2}
   InRuns = {"no"}
   Lates = {FALSE}
   MaxIdle = 1
   MaxBoot = 1
-  QLefts = {0, 9}
-  CreateOKs <- AllTrue
+  QLefts = {0, 1, 9}
+  CreateOKs <- FirstOff
   StartOKs <- AllTrue
   Readies = 1
 VIEW view
